@@ -18,6 +18,7 @@ def check(ctx):
         "type_name_of(f) with f nested in the function that opens the span, `::f` sliced off; R5 properties: keys in "
         "order, literal values constant with braces unescaped, formatted values format!() over the arguments; R6 `properties` together with "
         "`enter_on_poll` does not compile, in either order of the arguments (compile-fail witnesses).")
+    ctx.explanation += (' Round 5: two corpus shapes with async bodies that show no `.await` to the macro (none; awaited inside a macro) must still take the in_span template; R7 the LocalSpan guard leaves the span stack on every path of its Drop, also while unwinding.')
     ctx.not_decided = ("equality of return values and side-effect order for ALL bodies (semantic equivalence: the rules "
                        "show the body is embedded once, unmodified in its calls, in a wrapper that adds only drops at "
                        "scope end); drop order of unused by-value arguments (not claimed by the property); what is "
